@@ -419,8 +419,12 @@ def _r2_r3(ctx, rm, pkg, allv):
             kinds = {a.kind for a, extra in arms if not any(about_result(c) and p_ for c, p_ in extra)}
             if arms and kinds == {"delegate"}:
                 acc.add(tval)
-            elif und and "delegate" in kinds:
+            elif und:
+                # a dispatch condition that is not understood leaves this value undecided -- whatever arms stay "reachable"
                 open_ |= und
+            elif who == "Grain" and kinds - {"raise", "notimplemented"}:
+                # the grain's dispatch ends in something that is neither a rate builder nor a refusal: not understood
+                open_.add(f"Grain.rateexpr yields {sorted(kinds)} for type {tval}")
     ctx.floor("R2", "grain-dispatched types", len(gtypes), 9)
     if open_ and gtypes != rtypes:
         ctx.unrec("R2", "Reaction.rateexpr grain list == Grain.rateexpr chain", ("naunet/grains/grain.py", 0),
